@@ -2142,8 +2142,13 @@ class RepeatingEngine(Engine):
                 self.lastExecution = False
                 self.emit_now()
 
+        # VV: workflowAttributes.maxRestarts applies to repeating engines too (0 means never restart)
+        max_restarts = self.job.workflowAttributes.get('maxRestarts', None)
+        within_max_restarts = max_restarts in (None, -1) or self.restarts + 1 <= max_restarts
+
         # VV: @tag:RestartEngines
-        if reason == experiment.model.codes.exitReasons["ResourceExhausted"] and self.restarts == 0:
+        if (reason == experiment.model.codes.exitReasons["ResourceExhausted"] and self.restarts == 0
+                and within_max_restarts):
             # VV: A RepeatingEngine will only restart once and only if its last exit-reason was ResourceExhausted
             self.log.info("Attempting restart of interrupted last task execution")
 
